@@ -28,6 +28,9 @@ type KStats struct {
 	Validated   int64              `json:"validated"`
 	Extra       map[string]float64 `json:"extra"`
 	Payload     json.RawMessage    `json:"payload,omitempty"`
+	// Polluted: the unit proved that the application keeps state outside the store (a discarded branch
+	// changed what the parent sees); the worker must rebuild its world before the next unit
+	Polluted bool `json:"polluted,omitempty"`
 }
 
 // KFinding is a finding of a K/G engine together with its replayable input.
